@@ -51,6 +51,17 @@ def is_vf_call(t):
     return t.op == "call" and t.args[0] is A("vfield")
 
 
+def _jet_convention(r1, rname, ev, conv_seen, cfg):
+    """Derivative convention everywhere, except the doubling recursion, which works on normalised coefficients and rescales once at the end."""
+    conv_seen.add((str(ev["site"]), "convention"))
+    normalised = bool(ev.get("is_tcoeff", False))
+    in_doubling = rname == "jetexpand_ode_doubling_unroll"
+    caller = str(ev["caller"])
+    r1.require(normalised == in_doubling, f"func.jet convention at {caller.rsplit('.', 1)[-1]} [{rname}]",
+               "normalised coefficients in the doubling recursion (rescaled by k! at the end), derivatives everywhere else",
+               f"is_tcoeff={normalised} in {rname}: " + ("the doubling recursion divides by the coefficient index and multiplies by k! at the end, which assumes normalised coefficients" if in_doubling else "this routine returns what jet returns: derivatives"), ev["site"], cfg)
+
+
 def _run_own(chk, S: Session):
     chk.trust("func.jet(f, primals, series) / func.jvp(f, primals, tangents) differentiate f along the given series / tangents")
     r1 = chk.rule("R-C10-1", "explicit time is a differentiated input (unit series/tangent) at every Taylor-mode differentiation site", floor=10)
@@ -66,6 +77,7 @@ def _run_own(chk, S: Session):
     if other:
         raise AnalysisError(f"new Taylor routine(s) {other} are not covered by the scenario table; extend rules/c10.py")
     sites_seen = set()
+    conv_seen = set()
     for rname, kw in ROUTINES:
         for mode in ("flat", "pytree"):
             for order in (1, 2):
@@ -97,6 +109,10 @@ def _run_own(chk, S: Session):
                 for ev in evs:
                     for ok, construct, detail in xdomain.check_event(it, ev, is_vf_call, tt, sites=sites_seen):
                         r1.require(ok, f"{construct}", detail, detail, ev["site"], cfg)
+                for ev_ in getattr(it, "jet_conventions", []):
+                    if (str(ev_["site"]), "convention") not in conv_seen:
+                        _jet_convention(r1, rname, ev_, conv_seen, cfg)
+                it.jet_conventions = []
                 # pytree mode: results are un-raveled with the unravel of the first initial value
                 if mode == "pytree":
                     coeffs = res[0] if isinstance(res, (tuple, list)) else None
